@@ -1,6 +1,7 @@
 package checks
 
 import (
+	yamlv3 "gopkg.in/yaml.v3"
 	"context"
 	"database/sql"
 	"encoding/json"
@@ -19,6 +20,7 @@ import (
 	"github.com/transparency-dev/witness/internal/persistence"
 	"github.com/transparency-dev/witness/internal/persistence/inmemory"
 	psql "github.com/transparency-dev/witness/internal/persistence/sql"
+	"github.com/transparency-dev/witness/internal/witness"
 	"github.com/transparency-dev/witness/omniwitness"
 	"github.com/transparency-dev/witness/verifmc/ev"
 	"github.com/transparency-dev/witness/verifmc/lspwrap"
@@ -66,6 +68,10 @@ type c14Spec struct {
 	// Flavour: the stub log's flavour when it differs from the feeder type
 	// ("rekor-inactive": the configured tree is an inactive shard).
 	Flavour string `json:"flavour"`
+	// Rekeyed: the store already holds each log's first checkpoint, cosigned
+	// by an EARLIER key set of this witness (legacy signature only); Main runs
+	// with legacy + cosignature/v1 keys, as cmd/omniwitness does.
+	Rekeyed bool `json:"rekeyed"`
 	Scratch   string  `json:"scratch"`
 }
 
@@ -94,6 +100,20 @@ func (h hostMux) RoundTrip(r *http.Request) (*http.Response, error) {
 	}
 	if s, ok := h.m[r.URL.Host]; ok {
 		return s.RoundTrip(r)
+	}
+	// A log that has moved: its configured host answers every request with a
+	// redirect to where it lives now.
+	if to, ok := strings.CutPrefix(r.URL.Host, "moved-"); ok {
+		u2 := *r.URL
+		u2.Host = to
+		return &http.Response{StatusCode: 302, Status: "302 Found", Body: io.NopCloser(strings.NewReader("")), Header: http.Header{"Location": []string{u2.String()}}, Request: r}, nil
+	}
+	// The distributor service: takes whatever is pushed.
+	if r.URL.Host == "distributor.test" {
+		if r.Body != nil {
+			_, _ = io.Copy(io.Discard, r.Body)
+		}
+		return &http.Response{StatusCode: 200, Status: "200 OK", Body: io.NopCloser(strings.NewReader("ok")), Header: http.Header{}, Request: r}, nil
 	}
 	return nil, fmt.Errorf("verif: no stub for host %s", r.URL.Host)
 }
@@ -160,6 +180,10 @@ func c14Worker(args []string) int {
 		// Nothing published yet: the checkpoint endpoint answers 404.
 		l.srv.Answer = func(int, string) string { return "http-404" }
 		byHost.m[host] = l.srv
+		if i%4 == 2 {
+			// Every fourth log has moved: the configured host redirects.
+			l.url = strings.Replace(l.url, "http://"+host, "http://moved-"+host, 1)
+		}
 		byID[l.id] = l
 		logs = append(logs, l)
 		fmt.Fprintf(&yaml, "  - Origin: %s\n    URL: %s\n    PublicKey: %s\n    Feeder: %s\n", l.origin, l.url, u.K1.VKey, spec.Feeder)
@@ -198,7 +222,9 @@ func c14Worker(args []string) int {
 		}}), closer
 	}
 	opCfg := func(interval time.Duration) omniwitness.OperatorConfig {
-		return omniwitness.OperatorConfig{WitnessKeys: []note.Signer{u.W1.Signer, u.W1.CosigSigner}, WitnessVerifier: u.W1.CosigVerif, FeedInterval: interval}
+		// A distributor is configured as well (it shares the HTTP client with the feeders).
+		return omniwitness.OperatorConfig{WitnessKeys: []note.Signer{u.W1.Signer, u.W1.CosigSigner}, WitnessVerifier: u.W1.CosigVerif, FeedInterval: interval,
+			RestDistributorBaseURL: "http://distributor.test", DistributeInterval: time.Hour}
 	}
 	type running struct {
 		cancel context.CancelFunc
@@ -359,6 +385,27 @@ func c14Worker(args []string) int {
 	if spec.Mode == "running" {
 		interval := 400 * time.Millisecond
 		p, closer := newPersistence()
+		if spec.Rekeyed {
+			var lc omniwitness.LogConfig
+			_ = yamlv3.Unmarshal(omniwitness.ConfigLogs, &lc)
+			known, err := lc.AsLogMap()
+			if err != nil {
+				res.Err = "rekeyed: " + err.Error()
+				return 0
+			}
+			old, err := witness.New(witness.Opts{Persistence: p, Signers: []note.Signer{u.W1.Signer}, KnownLogs: known})
+			if err != nil {
+				res.Err = "rekeyed: " + err.Error()
+				return 0
+			}
+			for _, l := range logs {
+				cp := u.Sign(bodyOf(l.origin, l.sched[0], u.Main), u.K1.Signer)
+				if _, err := old.Update(context.Background(), l.id, 0, cp, nil); err != nil {
+					res.Err = "rekeyed: seeding: " + err.Error()
+					return 0
+				}
+			}
+		}
 		r := start(p, closer, interval)
 		if r == nil {
 			return 0
@@ -366,7 +413,9 @@ func c14Worker(args []string) int {
 		// Before anything is published: 404.
 		time.Sleep(interval)
 		for _, l := range logs {
-			check(r.addr, l, 0, u.Main, -1, "nothing published")
+			if !spec.Rekeyed {
+				check(r.addr, l, 0, u.Main, -1, "nothing published")
+			}
 		}
 		waitCycles := func() bool {
 			base := map[*c14Log]int{}
@@ -563,6 +612,9 @@ func c14(tier string) int {
 	// Rekor once more with the configured tree being an INACTIVE shard (as two
 	// of the three shipped Rekor entries are).
 	jobs = append(jobs, job{c14Spec{Mode: "running", Storage: "mem", Feeder: "rekor", Flavour: "rekor-inactive", Schedules: all, Fork: true}, "rekor-inactive/running/mem"})
+	// A store that an earlier key set of this witness cosigned (an upgrade from
+	// legacy-only signing, a key rotation).
+	jobs = append(jobs, job{c14Spec{Mode: "running", Storage: "mem", Feeder: "tiles", Schedules: all, Fork: true, Rekeyed: true}, "tiles/running/mem/rekeyed"})
 	// The same with checkpoints as large as real ones get: a log that publishes
 	// checkpoints already cosigned by 90 other witnesses (~9 KiB) and one that
 	// signs 70 KiB of extension lines.
@@ -631,6 +683,9 @@ func c14(tier string) int {
 			checks += int64(r.Checks)
 			run.Add("waits_beyond_the_expected_completion_event", int64(r.LateCatchUps))
 			steps += int64(r.Steps)
+			if j.spec.Rekeyed {
+				run.Hist("scenarios", j.spec.Feeder+"/"+j.spec.Mode+"/"+j.spec.Storage+"/rekeyed")
+			}
 			run.Hist("scenarios", j.spec.Feeder+map[bool]string{true: "(" + j.spec.Flavour + ")"}[j.spec.Flavour != ""]+"/"+j.spec.Mode+"/"+j.spec.Storage+map[bool]string{true: "/" + j.spec.Note}[j.spec.Note != ""])
 			for _, s := range j.spec.Schedules {
 				run.Distinct(fmt.Sprintf("%s%s/%s/%s/%v/%s", j.spec.Feeder, j.spec.Flavour, j.spec.Mode, j.spec.Storage, s, j.spec.Note))
@@ -648,7 +703,7 @@ func c14(tier string) int {
 	run.Set("served_checkpoint_checks", checks)
 	run.Set("steps", steps)
 	run.Set("exhaustive", true)
-	run.Set("rule", fmt.Sprintf("omniwitness.Main is run for real (generated ConfigLogs, listener on 127.0.0.1:0, outbound HTTP answered by in-process stub log servers generated from a 65537-leaf tree) for ALL strictly increasing growth schedules of length <= %d over sizes %v followed by a fork step: feeder type tiles follows every schedule at once (one configured log per schedule) in {running: 400 ms polling, in-memory and SQLite} and {restart between every step: one feed cycle per start, SQLite file}; feeder types serverless, pixel and rekor (the configured tree active, and as an inactive shard) follow every schedule at once on the running in-memory service; feeder type sumdb (its origin line is fixed, so one log per process) runs a covering subset in the quick tier and every schedule in the thorough tier. Both feeder types also follow logs whose checkpoints are large (already cosigned by 90 other witnesses, ~9 KiB; 70 KiB of extension lines). After each growth the service's HTTP GET checkpoint must be the log's head, cosigned, after 3 complete poll cycles (cycle completion observed at the stub, not timed) / after the single cycle of a restart (write-handle close observed by wrapping the persistence); after the fork step it must still be the last checkpoint of the witnessed history. distinct_nontrivial = distinct (feeder, mode, storage, schedule)", maxLen, c14Sizes))
+	run.Set("rule", fmt.Sprintf("omniwitness.Main is run for real (generated ConfigLogs, listener on 127.0.0.1:0, outbound HTTP answered by in-process stub log servers generated from a 65537-leaf tree) for ALL strictly increasing growth schedules of length <= %d over sizes %v followed by a fork step: feeder type tiles follows every schedule at once (one configured log per schedule) in {running: 400 ms polling, in-memory and SQLite} and {restart between every step: one feed cycle per start, SQLite file}; feeder types serverless, pixel and rekor (the configured tree active, and as an inactive shard) follow every schedule at once on the running in-memory service; feeder type sumdb (its origin line is fixed, so one log per process) runs a covering subset in the quick tier and every schedule in the thorough tier. Every Main instance also has a distributor configured (it shares the HTTP client with the feeders), every fourth log is configured under a host that redirects to where it lives, every other tiles / serverless / pixel log is served below a path prefix, and one tiles run starts on a store whose checkpoints an earlier key set of the witness cosigned. Both feeder types also follow logs whose checkpoints are large (already cosigned by 90 other witnesses, ~9 KiB; 70 KiB of extension lines). After each growth the service's HTTP GET checkpoint must be the log's head, cosigned, after 3 complete poll cycles (cycle completion observed at the stub, not timed) / after the single cycle of a restart (write-handle close observed by wrapping the persistence); after the fork step it must still be the last checkpoint of the witnessed history. distinct_nontrivial = distinct (feeder, mode, storage, schedule)", maxLen, c14Sizes))
 	run.Assumption("goroutine interleavings and timer races inside Main are not enumerated; the scenario space is. Safety deadlines (90 s / 40 s per step, >= 100x the normal latency) only end a broken build")
 	// Addressing leg: the schedules above stay below 65 538 leaves; the tile
 	// paths the sumdb feeder will ask for in larger trees (indices up to 10^9,
